@@ -63,6 +63,13 @@ def make_evaluator():
             for _ in range(SCHED.get("n", 0) and SCHED["rng"].randint(0, SCHED["n"])):
                 await asyncio.sleep(0)
             return EvaluatedFormatConstraint(format_constraint_fulfilled=False, error_message=f"saw:{entered_input}#")
+        def sync_method(self, entered_input):
+            # a plain (non-async) evaluation method that also looks at the context variable, which is documented to hold "the correct value in your context"
+            from ahbicht.content_evaluation import fc_evaluators
+            in_context = fc_evaluators.text_to_be_evaluated_by_format_constraint.get()
+            return EvaluatedFormatConstraint(format_constraint_fulfilled=False, error_message=f"saw:{entered_input}#saw:{in_context}#")
+        if key in ("951", "953"):
+            method = sync_method
         method.__name__ = f"evaluate_{key}"
         return method
 
@@ -147,7 +154,7 @@ def run(ctx: Ctx) -> None:
     from ahbicht.models.validation_values import RequirementValidationValue as R
     from ahbicht.validation.validation import validate_data_element_freetext
 
-    ctx.rule = ("deep AHBs with 2-30 free-text elements carrying pairwise different inputs (some absent/empty) and 1-3 format keys each; format evaluators that yield "
+    ctx.rule = ("deep AHBs with 2-30 free-text elements carrying pairwise different inputs (some absent/empty) and 1-3 format keys each; format evaluators (two async ones that yield, two plain ones that also read the context variable themselves) that yield "
                 "0-4 times per call under 10/60 schedules; every element's result compared with validating it alone; one traced run per AHB decided by the Lean driver; "
                 "distinct = (AHB, schedule)")
     ctx.coverage["generated_changed"] = extract.regenerate([])
